@@ -261,6 +261,8 @@ class Server(object):
         self.key_errors = {}        # jid -> ("code","text") makes key fetch fail
         self.hold_upload_reply = set()   # phones whose key-upload result is withheld
         self.upload_reply_error = set()  # phones whose next upload gets an error reply
+        self.delay_upload_reply = set()  # phones whose key-upload results are kept back until release_upload_replies()
+        self.delayed_results = {}        # phone -> [(upload dict, result stanza)]
         self.ask_keys_ids = 0
         self.auto_success = True
         self.low_keys = 0                # ask an account for more keys when fewer than this many are left
@@ -354,8 +356,24 @@ class Server(object):
         if client.phone in self.hold_upload_reply:
             up["confirmed"] = False
             return
+        if client.phone in self.delay_upload_reply:
+            up["confirmed"] = False
+            self.delayed_results.setdefault(client.phone, []).append((up, tup("iq", {"id": t[1]["id"], "type": "result", "from": S_NET})))
+            return
         up["confirmed"] = True
         self.to_client(client.phone, tup("iq", {"id": t[1]["id"], "type": "result", "from": S_NET}))
+
+    def release_upload_replies(self, phone, order="fifo", keep_last=0):
+        """Send the key-upload results kept back for this connection (fifo/lifo); the last keep_last stay lost."""
+        held = self.delayed_results.pop(phone, [])
+        if keep_last:
+            held = held[:-keep_last]
+        if order == "lifo":
+            held = held[::-1]
+        for up, st in held:
+            up["confirmed"] = True
+            self.to_client(phone, st)
+        return len(held)
 
     def iq_get_keys(self, client, t):
         users = []
